@@ -28,6 +28,8 @@ pub struct Cfg {
     fixed_t_us: u64,
     /// builder order: cancel_running_future() before the timeout source, or after
     cancel_first: bool,
+    /// every instance of the backend (the original and each clone) needs this long to become ready
+    warm_us: u64,
     calls: Vec<Call>,
 }
 
@@ -40,16 +42,16 @@ fn dur(us: u64) -> Duration {
 
 pub fn gen(rng: &mut Prng) -> Cfg {
     let per_request = rng.chance(0.5);
-    let fixed_t_us = if rng.chance(0.06) { *rng.pick(&HUGE) } else { *rng.pick(&[1000u64, 10_000, 50_000]) };
+    let fixed_t_us = if rng.chance(0.06) { *rng.pick(&HUGE) } else { *rng.pick(&[1000u64, 10_000, 50_000, 10_000, 0]) };
     let n = rng.range(1, 6);
     let mut calls = vec![];
     for _ in 0..n {
-        let t = if per_request { if rng.chance(0.08) { *rng.pick(&HUGE) } else { *rng.pick(&[1000u64, 10_000, 50_000, 5000]) } } else { fixed_t_us };
+        let t = if per_request { if rng.chance(0.08) { *rng.pick(&HUGE) } else { *rng.pick(&[1000u64, 10_000, 50_000, 5000, 0]) } } else { fixed_t_us };
         let lat = if t >= HUGE[1] {
             *rng.pick(&[Lat::Us(0), Lat::Us(5000), Lat::Us(200_000)])
         } else { match rng.below(8) {
             0 => Lat::Us(0),
-            1 => Lat::Us(t - 1000),
+            1 => Lat::Us(t.saturating_sub(1000)),
             2 | 3 => Lat::Us(t),
             4 => Lat::Us(t + 1000),
             5 => Lat::Us(3 * t),
@@ -58,7 +60,8 @@ pub fn gen(rng: &mut Prng) -> Cfg {
         } };
         calls.push(Call { arrive_us: rng.below(6) * 1000 * if rng.chance(0.5) { 1 } else { 5 }, t_us: t, lat, fail: rng.chance(0.3), pause: rng.chance(0.2) });
     }
-    Cfg { cancel: rng.chance(0.5), per_request, fixed_t_us, cancel_first: rng.chance(0.5), calls }
+    let warm_us = if rng.chance(0.12) { *rng.pick(&[2000u64, 7000, 30_000]) } else { 0 };
+    Cfg { cancel: rng.chance(0.5), per_request, fixed_t_us, cancel_first: rng.chance(0.5), warm_us, calls }
 }
 
 fn map_err(e: &TimeLimiterError<PErr>) -> Outcome {
@@ -74,7 +77,8 @@ pub fn run(cfg: &Cfg, seed: u64) -> (Arc<World>, crate::sim::SimStats) {
         let mut end = 0;
         macro_rules! go {
             ($layer:expr) => {{
-                let svc = $layer.layer(w.probe(1));
+                let probe = if cfg.warm_us > 0 { w.probe(1).with_ready(crate::world::ReadyScript::WarmUp(cfg.warm_us)) } else { w.probe(1) };
+                let svc = $layer.layer(probe);
                 for (i, c) in cfg.calls.iter().enumerate() {
                     let mut req = Req::new(i as u64 + 1, 0, vec![Step { lat: c.lat, out: if c.fail { Out::Err(1) } else { Out::Ok } }]);
                     req.payload = c.t_us;
@@ -84,7 +88,7 @@ pub fn run(cfg: &Cfg, seed: u64) -> (Arc<World>, crate::sim::SimStats) {
                         Lat::Us(n) => n,
                         _ => 0,
                     };
-                    end = end.max(c.arrive_us + l.max(if c.t_us >= HUGE[1] { 0 } else { c.t_us }) + 5000);
+                    end = end.max(c.arrive_us + 2 * cfg.warm_us + l.max(if c.t_us >= HUGE[1] { 0 } else { c.t_us }) + 5000);
                 }
             }};
         }
